@@ -193,6 +193,11 @@ class Summary:
         simple = re.compile(r"^[A-Za-z_][A-Za-z_0-9]*$")
         for ev in path.events:
             if ev.kind == "let" and simple.match(ev.a or "") and ev.b is not None:
+                pat = (ev.node or {}).get("pat") or {}
+                if pat.get("mut") and "(" in ev.b:
+                    # a mutable object built by a call (a builder, a buffer): it is not a value to substitute
+                    env.pop(ev.a, None)
+                    continue
                 env[ev.a] = H.subst_lets(ev.b, env)
             elif ev.kind == "assign" and simple.match(ev.a or ""):
                 rhs = H.subst_lets(ev.c or "", env)
@@ -217,6 +222,18 @@ class Summary:
                     env.pop(nm, None)
         self.val = H.subst_lets(path.val, env) if path.val else path.val
         self.env = env
+
+
+def pure_env(path):
+    """{name: initialiser} for the immutable locals of a path whose initialiser is a plain place / slice / arithmetic
+    expression (no call, no `?`): such a name is just an abbreviation and can be read through."""
+    env = {}
+    for ev in path.events:
+        if ev.kind == "let" and re.match(r"^\w+$", ev.a or "") and ev.b and "(" not in ev.b.replace("len(", "len<") and "?" not in ev.b:
+            pat = (ev.node or {}).get("pat") or {}
+            if not pat.get("mut"):
+                env[ev.a] = ev.b
+    return env
 
 
 def named_args(ctx, call, env=None):
